@@ -11,7 +11,7 @@ List level (differential against `txList`):
 Pool level (refinement check against `TxPool`): the op line carries what the real pool answered
 and its resulting content after `=>`; the model answers `ok` when that is one of the successors it
 allows (and continues from the matching successors), otherwise `mismatch model=<a successor>`.
-`cfg …`, `add loc=0 t=<tx> t=<tx> => e=-,replace P=… Q=… N=… S=p/q`, `reset nonces=… bals=… gl=… => …`,
+`cfg …`, `add loc=0 t=<tx> t=<tx> => e=-,replace P=… Q=… N=… S=p/q`, `reset nonces=… bals=… gl=… [t=<tx> …] => …` (the `t=` tokens are the re-injected transactions of a dropped branch, in block order),
 `price p=5 => …`, `expire a=2 => …`, `settle => …` (an idle reorg run), `status id=7` (answers `pending|queued|unknown`).
 
 `<tx>` = `id:sender:nonce:price:gas:value:slots:size:neg:sig:igas`. -/
@@ -143,12 +143,13 @@ def step (s : St) (line : String) : St × String :=
     | _, _ => (s, "bad-op")
   | "reset" :: rest =>
     let (pre, obs) := splitObs rest
-    match (kv pre "nonces").bind natList, (kv pre "bals").bind natList, kvNat pre "gl" with
-    | some nonces, some bals, some gl =>
+    match (kv pre "nonces").bind natList, (kv pre "bals").bind natList, kvNat pre "gl", txTokens pre with
+    | some nonces, some bals, some gl, some reinject =>
       let c : Chain := { nonces := nonces, balances := bals, gasLimit := gl }
-      let succs := s.pools.flatMap (fun p => (p.reset c).map (fun q => (q, render q s.nAcc)))
+      -- `t=…` tokens: the transactions of a dropped branch that are re-injected (chain reorganisation)
+      let succs := s.pools.flatMap (fun p => (p.resetReinject c reinject).map (fun q => (q, render q s.nAcc)))
       refine s succs obs
-    | _, _, _ => (s, "bad-op")
+    | _, _, _, _ => (s, "bad-op")
   | "price" :: rest =>
     let (pre, obs) := splitObs rest
     match kvNat pre "p" with
